@@ -61,6 +61,13 @@ pub trait Coll: Sized {
     }
 }
 
+/// Largest log2(bucket count) the `HugeSparse` recipe may draw. Properties that rebuild the state dozens of times per
+/// scenario lower it (every build writes, and every validation reads, all control bytes).
+static HUGE_MAX_LG: std::sync::atomic::AtomicU32 = std::sync::atomic::AtomicU32::new(26);
+pub fn set_huge_max_lg(lg: u32) {
+    HUGE_MAX_LG.store(lg.max(18), std::sync::atomic::Ordering::Relaxed);
+}
+
 /// An iterator that yields `inner`'s items but reports the given size hint (a lawful one: lo <= items <= hi).
 pub struct Hinted<I> {
     pub inner: I,
@@ -650,6 +657,7 @@ pub fn build<C: Coll>(spec: &Spec) -> C {
         Recipe::HugeSparse => {
             // keep the block below ~16 MiB; element types too large for that (or the Miri lane) get a multi-group table instead
             let mut lg = if rng.chance(1, 4) { *rng.pick(&[21u32, 22, 23, 24, 24, 25, 26]) } else { *rng.pick(&[18u32, 18, 18, 19, 20]) };
+            lg = lg.min(HUGE_MAX_LG.load(std::sync::atomic::Ordering::Relaxed));
             while lg > 18 && ((C::elem_size().max(1) + 1) << lg) > (1536 << 20) {
                 lg -= 1;
             }
